@@ -169,6 +169,11 @@ func (f *upstreamLimiter) syncLocalFlowControls(flowControls proxyv1alpha1.FlowC
 	for _, newSchema := range flowControls.Schemas {
 		newset.Add(newSchema.Name) //nolint
 		fc, ok := f.flowControls.Load(newSchema.Name)
+		if ok && fc.LocalFlowControl().Type() != flowcontrol.GuessFlowControlSchemaType(newSchema) {
+			// type changed: requests admitted by the old limiter keep releasing on it
+			f.flowControls.Delete(newSchema.Name)
+			ok = false
+		}
 		if !ok {
 			// flow control is not created or type changed
 			fc = remote.NewFlowControlCache(f.cluster, newSchema.Name, f.clientID, f.globalCounterProvider)
